@@ -78,6 +78,8 @@ def generate(rng, prop, tier):
                 grid = {}
                 for k in rng.sample(sorted(HYPER), rng.randint(1, 2)):
                     grid[k] = sorted(set(rng.sample(HYPER[k], min(len(HYPER[k]), rng.choice([1, 1, 2])))), key=repr)
+                if d["name"] in ("cv", "direct2") and rng.random() < 0.35:
+                    grid["extra_validation"] = [True]  # these models pass the (slow, symbolic) extra validation
                 if rng.random() < 0.25:
                     grid["innovation_filtering"] = [None]  # filtering pinned off: a single-valued dimension whose value is None
                 extra = {}
